@@ -2,6 +2,7 @@ package main
 
 import (
 	"fmt"
+	"go/ast"
 	"go/constant"
 	"go/token"
 	"go/types"
@@ -80,6 +81,7 @@ type State struct {
 	iters map[int]*IterState
 	facts map[*Term]bool
 	dead  bool
+	inBounds bool
 	// panicked paths etc. handled by outcomes
 }
 
@@ -170,6 +172,10 @@ type Frame struct {
 	callCount map[string]int
 	loopEntry map[*ssa.BasicBlock]*loopCtx
 	parent   *Frame
+	// slices whose elements are written through (&s[i]): register -> cell holding the current slice value
+	sliceObjs map[ssa.Value]*PtrVal
+	// source-level names of SSA values (from DebugRef): latest binding wins
+	names map[string]ssa.Value
 }
 
 type loopCtx struct {
@@ -537,6 +543,9 @@ func (x *Exec) value(f *Frame, st *State, v ssa.Value) Val {
 	case *ssa.Builtin:
 		return &OpaqueVal{Name: "builtin:" + c.Name()}
 	}
+	if p, ok := f.sliceObjs[v]; ok {
+		return x.load(st, p)
+	}
 	if r, ok := f.regs[v]; ok {
 		return r
 	}
@@ -758,6 +767,18 @@ func (f *Frame) fork() *Frame {
 	for k, v := range f.callCount {
 		n.callCount[k] = v
 	}
+	if f.names != nil {
+		n.names = make(map[string]ssa.Value, len(f.names))
+		for k, v := range f.names {
+			n.names[k] = v
+		}
+	}
+	if f.sliceObjs != nil {
+		n.sliceObjs = make(map[ssa.Value]*PtrVal, len(f.sliceObjs))
+		for k, v := range f.sliceObjs {
+			n.sliceObjs[k] = v
+		}
+	}
 	return &n
 }
 
@@ -883,11 +904,7 @@ func (x *Exec) step(f *Frame, st *State, ins ssa.Instruction) bool {
 				return false
 			}
 			x.panicSite(f, st, Or(Lt(idx, IntLit(0)), Ge(idx, SelField(pv, 0))), "index out of range at "+x.pos(in.Pos()))
-			o := x.newObj(in.Type().(*types.Pointer).Elem(), "elem")
-			st.mem[o] = Select(SelField(pv, 1), idx)
-			// remember origin so stores through it are flagged
-			f.regs[in] = &PtrVal{Obj: o}
-			x.prog.sliceCells[o] = true
+			f.regs[in] = x.sliceElemPtr(f, st, in.X, pv, idx)
 		case *GoSlice:
 			if idx.IsLit() {
 				k := int(idx.Lit.Int64())
@@ -932,6 +949,12 @@ func (x *Exec) step(f *Frame, st *State, ins ssa.Instruction) bool {
 	case *ssa.ChangeInterface:
 		f.regs[in] = x.value(f, st, in.X)
 	case *ssa.ChangeType:
+		if p, ok := f.sliceObjs[in.X]; ok {
+			if f.sliceObjs == nil {
+				f.sliceObjs = map[ssa.Value]*PtrVal{}
+			}
+			f.sliceObjs[in] = p // same backing array
+		}
 		f.regs[in] = x.convert(f, st, x.value(f, st, in.X), in.X.Type(), in.Type())
 	case *ssa.Convert:
 		f.regs[in] = x.convert(f, st, x.value(f, st, in.X), in.X.Type(), in.Type())
@@ -1068,6 +1091,12 @@ func (x *Exec) step(f *Frame, st *State, ins ssa.Instruction) bool {
 		return false
 	case *ssa.RunDefers:
 	case *ssa.DebugRef:
+		if id, ok := in.Expr.(*ast.Ident); ok && !in.IsAddr && id.Name != "_" {
+			if f.names == nil {
+				f.names = map[string]ssa.Value{}
+			}
+			f.names[id.Name] = in.X
+		}
 	case *ssa.Range:
 		x.errorf("%s: range over map/string not supported at %s", f.fn.Name(), x.pos(in.Pos()))
 		return false
@@ -1162,6 +1191,26 @@ func (st *State) bounds(t *Term) (lo, hi *big.Int) {
 	if t.IsLit() {
 		return t.Lit, t.Lit
 	}
+	if t.kind == tApp && (t.Op == "+" || t.Op == "-") && len(t.Args) == 2 && !t.Args[1].IsLit() && !t.Args[0].IsLit() && t.Args[0].Sort == SInt {
+		l0, h0 := st.bounds1(t.Args[0])
+		l1, h1 := st.bounds1(t.Args[1])
+		if t.Op == "+" {
+			if l0 != nil && l1 != nil {
+				lo = new(big.Int).Add(l0, l1)
+			}
+			if h0 != nil && h1 != nil {
+				hi = new(big.Int).Add(h0, h1)
+			}
+		} else {
+			if l0 != nil && h1 != nil {
+				lo = new(big.Int).Sub(l0, h1)
+			}
+			if h0 != nil && l1 != nil {
+				hi = new(big.Int).Sub(h0, l1)
+			}
+		}
+		return
+	}
 	if t.kind == tApp && (t.Op == "+" || t.Op == "-") && len(t.Args) == 2 && t.Args[1].IsLit() {
 		l, h := st.bounds(t.Args[0])
 		c := t.Args[1].Lit
@@ -1182,6 +1231,9 @@ func (st *State) bounds(t *Term) (lo, hi *big.Int) {
 		}
 		return cur
 	}
+	depthOK := !st.inBounds
+	st.inBounds = true
+	defer func() { st.inBounds = !depthOK }()
 	var scan func(p *Term)
 	scan = func(p *Term) {
 		if p.kind != tApp {
@@ -1212,6 +1264,20 @@ func (st *State) bounds(t *Term) (lo, hi *big.Int) {
 			case "=":
 				lo, hi = upd(lo, b.Lit, true), upd(hi, b.Lit, false)
 			}
+		case a == t && !b.IsLit() && depthOK:
+			// t < y / t <= y with a known upper bound of y
+			if p.Op == "<" || p.Op == "<=" {
+				depthOK = false
+				_, hy := st.bounds1(b)
+				depthOK = true
+				if hy != nil {
+					if p.Op == "<" {
+						hi = upd(hi, new(big.Int).Sub(hy, one), false)
+					} else {
+						hi = upd(hi, hy, false)
+					}
+				}
+			}
 		case b == t && a.IsLit():
 			switch p.Op {
 			case "<=":
@@ -1229,6 +1295,17 @@ func (st *State) bounds(t *Term) (lo, hi *big.Int) {
 		scan(p)
 	}
 	return
+}
+
+// bounds1: bounds of an atomic term (no recursion into arithmetic)
+func (st *State) bounds1(t *Term) (lo, hi *big.Int) {
+	if t.kind == tApp && (t.Op == "+" || t.Op == "-" || t.Op == "*") {
+		if t.Args[1].IsLit() {
+			return st.bounds(t)
+		}
+		return nil, nil
+	}
+	return st.bounds(t)
 }
 
 // wrapIn is wrap with knowledge of the path condition: no wrap-around term when the bounds exclude it.
@@ -1605,4 +1682,28 @@ func (x *Exec) coinsElemCell(f *Frame, st *State, c *Term, idx *Term, in *ssa.In
 	o := x.newObj(in.Type().(*types.Pointer).Elem(), "coin")
 	st.mem[o] = Con(SCoin, d, amt)
 	return &PtrVal{Obj: o}
+}
+
+// sliceElemPtr: &s[i] for a slice value. Writes through the result must be visible through the slice:
+//  - a slice loaded from memory (struct field, local): pointer into that memory location;
+//  - a pure SSA value (call result): the register is given a cell holding its current value.
+func (x *Exec) sliceElemPtr(f *Frame, st *State, reg ssa.Value, cur *Term, idx *Term) Val {
+	if ld, ok := reg.(*ssa.UnOp); ok && ld.Op == token.MUL {
+		if pv, ok := f.regs[ld.X].(*PtrVal); ok {
+			if now, ok := x.load(st, pv).(*Term); ok && now == cur {
+				return &PtrVal{Obj: pv.Obj, Path: append(append([]pathElem(nil), pv.Path...), pathElem{isIdx: true, idx: idx})}
+			}
+		}
+	}
+	if f.sliceObjs == nil {
+		f.sliceObjs = map[ssa.Value]*PtrVal{}
+	}
+	p, ok := f.sliceObjs[reg]
+	if !ok {
+		o := x.newObj(reg.Type(), "slice:"+reg.Name())
+		st.mem[o] = cur
+		p = &PtrVal{Obj: o}
+		f.sliceObjs[reg] = p
+	}
+	return &PtrVal{Obj: p.Obj, Path: []pathElem{{isIdx: true, idx: idx}}}
 }
